@@ -173,26 +173,28 @@ theorem evalStep_le (C : Ctx) (e : Expr) : M.le (evalStep C r e) (evalStep C r' 
     apply M.bind_le (h.1 e); intro _
     exact M.le_refl _
   | call k name args =>
-    unfold evalStep
-    apply M.bind_le (evalArgs_le h args); intro kw
     cases k with
     | function =>
-      simp only
+      simp only [evalStep]
+      apply M.bind_le (evalArgs_le h args); intro kw
       split
       · exact invoke_le h _ _ _ _
       · exact M.le_refl _
     | implicit ns =>
-      simp only
+      simp only [evalStep]
+      apply M.bind_le (evalArgs_le h args); intro kw
       split
       · split <;> exact invoke_le h _ _ _ _
       · exact M.le_refl _
     | classOp ns =>
-      simp only
+      simp only [evalStep]
       split
-      · split <;> exact invoke_le h _ _ _ _
+      · apply M.bind_le (evalArgs_le h args); intro kw
+        exact invoke_le h _ _ _ _
       · exact M.le_refl _
     | bridge ns =>
-      simp only
+      simp only [evalStep]
+      apply M.bind_le (evalArgs_le h args); intro kw
       split
       · split <;> exact invoke_le h _ _ _ _
       · exact M.le_refl _
